@@ -956,6 +956,7 @@ func runC13(c *Ctx) {
 	ruleUnifyOrder(c)
 	ruleMergeTarget(c)
 	ruleMdiffPairs(c)
+	ruleSizeGuard(c, "mdiff")
 	ruleAllocBounded(c, "mdiff", false)
 
 	// ---- R-LR-MIRROR
